@@ -60,6 +60,7 @@ type baseBlock struct {
 	bz      []byte       // wire bytes
 	decoded *types.Block // as a receiver gets it
 	usable  bool         // wire round trip worked and the decoded block validates
+	bigTxs  bool         // long transaction list: only the per-position transaction mutations are enumerated
 }
 
 var (
@@ -73,7 +74,12 @@ var (
 	id1      types.BlockID
 	family   []*baseBlock
 	txPool   []*types.Transaction // signed transactions to draw from
+	bigExtra *types.Transaction   // replacement transaction for the long lists
 )
+
+var bigTxCounts = []int{127, 128, 129, 130, 200, 257}
+
+const bigTxMax = 257
 
 func mustKey(h string) *ecdsa.PrivateKey {
 	k, err := crypto.HexToECDSA(h)
@@ -281,19 +287,23 @@ func setupChain() {
 			}
 		}
 	}
-	if r.Thorough() {
-		// DeriveSha feeds the stack trie in the order 1..127, 0, 128.. : a block crossing that boundary
-		var many []*types.Transaction
-		for i := 0; i < 130; i++ {
-			tx := types.NewTransaction(uint64(i), to, big.NewInt(int64(i)), 21000, big.NewInt(1), nil)
-			stx, err := types.SignTx(types.HomesteadSigner{}, tx, ks[0])
-			if err != nil {
-				panic(err)
-			}
-			many = append(many, stx)
+	// DeriveSha feeds the stack trie in three runs (indices 1..0x7f, then 0, then 0x80..) and the RLP form of
+	// the index changes at 128 and 256: blocks whose transaction lists end on and around every one of those
+	// boundaries. Only their per-position transaction mutations are enumerated (bigTxs).
+	var many []*types.Transaction
+	for i := 0; i < bigTxMax+1; i++ {
+		tx := types.NewTransaction(uint64(i), to, big.NewInt(int64(i)), 21000, big.NewInt(1), nil)
+		stx, err := types.SignTx(types.HomesteadSigner{}, tx, ks[0])
+		if err != nil {
+			panic(err)
 		}
-		commit := makeCommit(state1.LastValidators, 1, 0, id1, commits[0].kinds)
-		add("h2/commit=full/txs=130/evidence=0", 2, state1, proposerBlock(2, state1, prop1, commit, many, nil))
+		many = append(many, stx)
+	}
+	bigExtra = many[bigTxMax]
+	fullCommit := makeCommit(state1.LastValidators, 1, 0, id1, commits[0].kinds)
+	for _, n := range bigTxCounts {
+		family = append(family, &baseBlock{name: fmt.Sprintf("h2/commit=full/txs=%d/evidence=0", n), height: 2, state: state1, bigTxs: true,
+			block: proposerBlock(2, state1, prop1, fullCommit, many[:n], nil)})
 	}
 }
 
